@@ -44,7 +44,7 @@ def _configs(tier):
     C = []
     for m in (["mle"], ["pearsonr"], ["mle", [0, 2]]):
         C.append(["boxcox"] + m)
-    C += [["log"], ["detrend", 1], ["detrend", 2], ["std"], ["minmax"],
+    C += [["log"], ["detrend", 1], ["detrend", 2], ["std"], ["minmax"], ["std-df"], ["minmax-df"],
           ["opt", ["log"], False], ["opt", ["log"], True],
           ["opt", ["deseason", 3, "additive"], False]]
     for sp in (2, 3, 4):
@@ -142,6 +142,8 @@ def _build(cfg):
     from sktime.transformations.series.outlier_detection import HampelFilter
 
     k = cfg[0]
+    if k.endswith("-df"):
+        return fmenu.build_t([k[:-3]])
     if k == "boxcox":
         return BoxCoxTransformer(method=cfg[1], bounds=tuple(cfg[2]) if len(cfg) > 2 else None)
     if k == "ttfT":
@@ -188,7 +190,7 @@ def _evaluate(res, tag, cfg, t, t7, z, z7, m, comp_ref, stage):
     pos7 = {lab: i for i, lab in enumerate(z7.index)}
     GAPS = [0, 2, 3, 6, 9]  # as many points as the longest contiguous stretch of that start
     gapped_ok = cfg[0] in ("deseason", "cdeseason", "log", "boxcox", "std", "minmax", "opt",
-                           "cos")
+                           "cos", "std-df", "minmax-df")
     stretches = []
     for a in range(0, m + 5):
         for ln in range(max(1, minlen), max(6, minlen + 3)):
@@ -216,7 +218,7 @@ def _evaluate(res, tag, cfg, t, t7, z, z7, m, comp_ref, stage):
                                 observed=dict(orig=o.brief(), shifted=o7.brief(), **H))
                     return True
                 if cfg[0] in ("boxcox", "log", "deseason", "cdeseason", "detrend", "std",
-                              "minmax", "opt", "ttfT", "cos", "imputer"):
+                              "minmax", "opt", "ttfT", "cos", "imputer", "std-df", "minmax-df"):
                     res.violate(tag + ":transform:raises", "transform raised on a valid "
                                 "stretch", observed=dict(error=o.brief(), **H))
                     return True
@@ -281,6 +283,10 @@ def run_case(case):
         ("" if ik == "int" else ":" + ik)
     z = _series(m + 12, case["fam"], start, ik)
     z7 = _series(m + 12, case["fam"], start, ik, shift=7)
+    if cfg[0].endswith("-df"):
+        # multivariate input: the wrapped tabular transformer works column by column
+        z = pd.DataFrame({"a": z, "b": z * 0.5 - 3.0, "c": (z - 40.0) ** 2 / 50.0})
+        z7 = pd.DataFrame({"a": z7, "b": z7 * 0.5 - 3.0, "c": (z7 - 40.0) ** 2 / 50.0})
     t, t7, t2 = _build(cfg), _build(cfg), _build(cfg)
     if case.get("reused"):
         tag += ":reused"
